@@ -54,7 +54,16 @@ func Piecewise(x float64, xs, ys data.ND1Float64) (y float64, err error) {
 	y0 := ys.Get(idx)
 	idx[0] = j
 	y1 := ys.Get(idx)
+	if x == x1 {
+		// exact table value at the right knot (y0 + 1*(y1-y0) need not round to y1)
+		y = y1
+		return
+	}
 	y = y0 + frac * (y1-y0)
+	if (y1 >= y0 && y > y1) || (y1 <= y0 && y < y1) {
+		// rounding must not carry the interpolant past the neighbouring table value
+		y = y1
+	}
 	return
 }
 
